@@ -161,6 +161,10 @@ class _Base(Harness):
             return None
         if m == "merge_inplace":
             return t.merge_bins(2, inplace=True)
+        if m == "adapt_fill":
+            # adaptivity switched on afterwards, then a fill that makes the bins grow
+            t.set_adaptive(True)
+            return t.fill(x["v"], x["w"])
         raise ValueError(m)
 
     def _common_declare(self, cx, p, x):
@@ -262,6 +266,9 @@ class C12Adaptive1D(_Base):
     def instances(self, tier):
         for d, m, side in itertools.product(["copy", "add", "mul", "slice", "json", "sum1", "normalize"], ["fill", "fill_n", "iadd", "meta"], ("derived", "source")):
             yield f"1da-{d}-{m}-{side}", dict(deriv=d, mut=m, side=side)
+        # a NON-adaptive fixed-width source: the derived object (or the source) is made adaptive later and grows - the other one keeps its bins
+        for d, side in itertools.product(["copy", "mul", "sum1", "normalize", "json"], ("derived", "source")):
+            yield f"1da-{d}-adapt_fill-{side}-nonadaptive", dict(deriv=d, mut="adapt_fill", side=side, nonadaptive=True)
 
     def declare(self, cx, p):
         x = {"f": declare_cells(cx, "f", [3], "int"), "g": declare_cells(cx, "g", [3], "int"), "t": cx.pyint("t", -2, 2), "d": cx.pyint("d", -2, 2)}
@@ -276,8 +283,9 @@ class C12Adaptive1D(_Base):
         np = E.np
         H1 = E.mod("physt.histogram1d").Histogram1D
         FWB = E.mod("physt.binnings").FixedWidthBinning
-        h = H1(FWB(bin_width=1.0, bin_count=3, bin_times_min=x["t"], adaptive=True), np.asarray(x["f"], dtype=int), name="src", axis_name="ax")
-        g = H1(FWB(bin_width=1.0, bin_count=3, bin_times_min=x["t"] + x["d"], adaptive=True), np.asarray(x["g"], dtype=int))
+        ad = not p.get("nonadaptive")
+        h = H1(FWB(bin_width=1.0, bin_count=3, bin_times_min=x["t"], adaptive=ad), np.asarray(x["f"], dtype=int), name="src", axis_name="ax")
+        g = H1(FWB(bin_width=1.0, bin_count=3, bin_times_min=x["t"] + x["d"], adaptive=ad), np.asarray(x["g"], dtype=int))
         return h, g
 
 
